@@ -138,9 +138,22 @@ def adjusted_fields(F, fn, delta_arg=2):
     return out
 
 
+def growth_host(F, g):
+    """the function holding the growth steps of g: g itself, or the private helper the steps were extracted into (the call to the
+    helper must lie on g's way out: every Ok exit of g past the call is the helper's success)"""
+    if g.calls_to('Memvid::shift_data_for_wal_growth'):
+        return g
+    for c in g.calls():
+        h = F.fns.get(c.local_callee) if c.local_callee else None
+        if h is not None and not h.is_closure and h.calls_to('Memvid::shift_data_for_wal_growth'):
+            return h
+    return g
+
+
 def growth_protocol(ctx, F, g, rule):
     """a WAL-growth path must, on every Ok path and in this order: shift the data, adjust the TOC offsets, rewrite the
     TOC + footer, persist the header, sync"""
+    g = growth_host(F, g)
     steps = [('shift_data_for_wal_growth', g.calls_to('Memvid::shift_data_for_wal_growth')),
              ('adjust_offsets_after_wal_growth', g.calls_to('Memvid::adjust_offsets_after_wal_growth')),
              ('rewrite_toc_footer', g.calls_to('Memvid::rewrite_toc_footer')),
@@ -252,6 +265,13 @@ def run(ctx):
             for st in lib.field_stores(w, 'Memvid'):
                 if st['bb'] in err_blocks:
                     restored |= {f for o, f in st['lhs'].field_owners() if o == 'Memvid'}
+            # the restore block extracted into a private method called on the Err arm: its stores count
+            for c in w.calls():
+                h = F.fns.get(c.local_callee) if c.local_callee else None
+                if h is not None and c.bb in err_blocks and not h.is_closure and (h.r.get('impl_self') or '').endswith('::Memvid'):
+                    ctx.touch(h, len(h.blocks))
+                    for st in lib.field_stores(h, 'Memvid'):
+                        restored |= {f for o, f in st['lhs'].field_owners() if o == 'Memvid'}
             missing = [f for f in RESTORED if f not in restored]
             if not missing:
                 ctx.ok('MPT-C02b', w, 'Err arm restores %s' % ', '.join(RESTORED))
@@ -296,6 +316,7 @@ def run(ctx):
             g = ctx.need('COVER-C02d', key)
             if g is None:
                 continue
+            g = growth_host(F, g)
             ctx.touch(g, len(g.blocks))
             # the handle's own cached positions into the data region move with the data
             for fld in mem_pos:
@@ -319,6 +340,15 @@ def run(ctx):
     d = F.fn('<Memvid as Drop>::drop')
     if d is not None:
         entries[d.key] = d
+    callers_by_key = {}
+    for f in F.fns.values():
+        owner = f
+        while owner.is_closure and owner.r.get('parent') in F.fns:
+            owner = F.fns[owner.r['parent']]
+        for c in f.calls():
+            t = F.fns.get(c.local_callee) if c.local_callee else None
+            if t is not None and t.path != owner.path:
+                callers_by_key.setdefault(t.key, set()).add(owner.key)
     found = {}
     for k, e in sorted(entries.items()):
         r = reach_outside_staging(F, e)
@@ -334,6 +364,16 @@ def run(ctx):
             continue
         allowed, why = INPLACE[k]
         extra = ws - allowed
+        # a block of a reviewed writer extracted into a private helper: a writer all of whose callers are reviewed writers of this
+        # entry (or helpers excused the same way) adds no write the function-level review did not already cover
+        changed = True
+        while changed and extra:
+            changed = False
+            for x in sorted(extra):
+                cs = callers_by_key.get(x, set())
+                if cs and all(c in allowed or (c in ws and c not in extra) for c in cs):
+                    extra.discard(x)
+                    changed = True
         if extra:
             ctx.bad('WMC-C02c', fn, 'entry point gained in-place writer(s) %s outside the commit staging (reviewed set: %s)' % (', '.join(sorted(extra)), why),
                     detail='new-inplace-writer:' + ','.join(sorted(extra)), sink=','.join(sorted(extra)))
